@@ -152,6 +152,20 @@ def gen_c19(rnd, n, thorough=False):
             add('pmeth', 'pmeth %s' % S(s))
             add('flagmeth', 'flagmeth %s' % S(s))
         cases.append({'id': 'c19-%d' % c, 'lines': lines, 'tags': tags})
+    # timestamps as the server reads them from a query (from / until / now of /view): an accepted string means its
+    # instant, a malformed one is refused -- every time it is sent, whatever was sent before
+    lines = ["create s/i1/a.wsp 2 1 60 5 24 m 2 x 3f000000", "many s/i1/a.wsp 0 @ 3 @ 3ff0000000000000 @-7 4000000000000000 @-20 4008000000000000",
+             "sync s/i1/a.wsp", "drop s/i1/a.wsp"]
+    good = "file=CASEDIR/s/i1/a.wsp&retention=0&from=TS(@-30)&until=TS(@-2)&now=TS(@)"
+    lines.append('clirawview q=%s' % good)
+    for _ in range(6):
+        key = rnd.pick(['from', 'until', 'now'])
+        bad = rnd.pick(['2020-09-13T12:16:40', 'yesterday', '2106-02-07T06:28:16Z', '2020-09-13T12:16:40%2B09:00', 'TS(@-5)x', 'TS(@-5).5', '1700000000', '', '2020-13-01T00:00:00Z'])
+        q = '&'.join('%s=%s' % (k_, bad if k_ == key else v_) for k_, v_ in [p_.split('=', 1) for p_ in good.split('&')])
+        lines += ['clirawview q=%s' % q] * rnd.randint(2, 3)
+        if rnd.chance(0.5):
+            lines.append('clirawview q=%s' % good.replace('TS(@-30)', 'TS(@-%d)' % rnd.randint(3, 40)))
+    cases.append({'id': 'c19-server', 'lines': lines, 'tags': {'ops': {'clirawview': len(lines) - 4}}})
     return cases
 
 
